@@ -45,6 +45,10 @@ MAX_OPS = 15  # 8 (save) + 3 (history: open, header line, data row) + at most 4 
 LEAK = "C16.leak.tmp_or_superseded_after_crash"
 WINDOW = "C16.format_without_epoch.window"
 TORN = "C16.history.torn_row"
+NAME_RAW = "C16.metric_named_format.name_from_unrecorded_digits"
+DECIDE_RAW = "C16.resume.decision_on_unrecorded_digits"
+# a format that names the metric with MORE digits than the history file records
+FMT_METRIC8 = ("m_{val_met:.7e}.pt", "o_{val_met:.7e}.pt")
 
 # parameters that make the early-stopping / learning-rate columns of a history row (and the optimizer's
 # lr) change from epoch to epoch: the continued run must reproduce them byte for byte
@@ -66,19 +70,65 @@ def has_epoch(fmt):
     return any(x[1] == "epoch" for x in Formatter().parse(fmt))
 
 
-def metric_ints(case):
+def raw_metrics(case):
+    """The deciding column (validation, or training with best_is_train) as handed to update_for_epoch."""
     col = 0 if case.get("best_is_train") else 1
-    return [v[col] for v in case["vals"]]
+    return [R.mval(v[col]) for v in case["vals"]]
+
+
+def rec_metrics(case):
+    """The deciding column AS RECORDED in the history file: what any controller started later knows, and
+    what `best` is defined on (get_best_epoch: "the lowest recorded validation metric, ties: the earlier")."""
+    return [R.recorded_value(x) for x in raw_metrics(case)]
 
 
 def best_epoch(ms, k):
-    """first strict minimum among epochs 1..k (None = inf), 0 if none"""
-    be, bv = 0, None
+    """first strict minimum among epochs 1..k of the recorded values (inf is never best), 0 if none"""
+    be, bv = 0, float("inf")
     for e in range(1, k + 1):
         v = ms[e - 1]
-        if v is not None and (bv is None or v < bv):
+        if v < bv:
             be, bv = e, v
     return be
+
+
+def off_grid(case):
+    return any(isinstance(x, float) for v in case["vals"] for x in v)
+
+
+def pt(sign, m, off, p):
+    """The metric  sign * m * 10**(p-4)  +  off * 10**(p-8)  for a 5-digit mantissa m (10000..99999): `off` is the
+    distance from the grid point m of the history file's 5-significant-digit format in 1/10000 of the grid
+    spacing — |off| < 5000 stays in the cell of m (recorded as m), 5000 < off < 15000 is recorded as m + 1, ...
+    The same `off` moves the value in the same direction for either sign (lower off = lower = better metric)."""
+    q = m * 10000 + (off if sign > 0 else -off)
+    return float(f"{'-' if sign < 0 else ''}{q}e{p - 8}")
+
+
+MAGS = tuple(range(-7, 7))          # decades 1e-7 .. 1e+6
+OFFS_IN = (-4996, -4500, -3000, -400, 0, 0, 400, 2000, 3000, 4500, 4996)      # same recorded value
+OFFS_OUT = (5004, 5500, 7000, 9600, 10000, 14000, 20000)                      # 1 or 2 grid points away
+# recorded m, m, m, m-1, m+7: epochs 2 and 3 are LOWER than epoch 1 only beyond the recorded precision (best stays
+# 1), epoch 4 differs from epoch 3 by a tenth of the grid spacing and is a new best by one grid point, 5 is worse
+PAT_DOWN = (3000, 400, -4500, -5500, 70000)
+# recorded m, m, m+1, m-3, m-3: higher inside the cell, a near-tie that separates upwards, a tie from above
+PAT_UP = (400, 3000, 5500, -30000, -25004)
+
+
+def rank_table(case):
+    """Order-preserving integers for the Lean model: every finite metric of the case, raw and recorded, gets its
+    rank in the sorted set of all of them. -> (rank of, [[rank x, rank recorded(x)] ..])"""
+    xs = set()
+    for v in case["vals"]:
+        for x in v:
+            x = R.mval(x)
+            if x != float("inf"):
+                xs.add(x)
+                xs.add(R.recorded_value(x))
+                xs.add(R.recorded_value(R.recorded_value(x)))
+    order = sorted(xs)
+    rk = {x: i for i, x in enumerate(order)}
+    return rk, [[rk[x], rk[R.recorded_value(x)]] for x in order]
 
 
 def norm_trace(tr, sort_removes):
@@ -131,7 +181,12 @@ def norm_state(st, tab):
 class C16(PropertyCheck):
     pid = "C16"
     rule = ("histories (hand-made corner cases + random, 1..6 epochs, metrics on a 3-decimal grid, inf at "
-            "epoch 1, ties with the best / with the previous epoch) x keep_last_and_best_only x 7 file-name "
+            "epoch 1, ties with the best / with the previous epoch; + metrics OFF the grid of the 5 significant "
+            "digits the history file records, every decade 1e-7..1e+6, mixed decades, either sign, 0: values "
+            "inside one cell of the recorded grid in descending / ascending order (ties that exist only in the "
+            "recorded history), raw near-ties on both sides of a cell boundary (one grid point apart as recorded), "
+            "mantissas at the ends of a decade; `best` and exactness are judged on the history AS RECORDED) "
+            "x keep_last_and_best_only x 7 file-name "
             "format pairs (with {epoch}, constant, formatted from a metric) x best_is_train x variants "
             "(early-stopping + reduce-lr parameters active, a user entry, explicit epoch= argument; reduce-lr alone "
             "with 1..4 reductions of the optimizer's learning rate in one run, the rate taken from the parameters "
@@ -154,6 +209,10 @@ class C16(PropertyCheck):
         "never equal a checkpoint name",
         "training is deterministic (the state saved for epoch e is a function of e); history rows are a "
         "function of the metric history (C15)",
+        "the recorded value of a metric x is float('{:.4e}'.format(x)) (the documented format of the history "
+        "file); the best epoch is the first minimum of the RECORDED values of the deciding column; off-grid "
+        "metrics are combined with formats that contain {epoch} and with the default early-stopping / reduce-lr "
+        "parameters (thresholds 0: those rules compare raw with recorded values after a restart - C15's subject)",
         "full states are compared bit for bit with the uninterrupted run of the SAME implementation (same float "
         "operations in the same order); learning rates are dyadic or decimal-short so that the 5-significant-"
         "digit learning-rate column of the history is exact (its rounding is C15's known finding)",
@@ -194,6 +253,86 @@ class C16(PropertyCheck):
                  for _ in range(n)]
             hs.append((h, ("default",) if tier == "quick" else ("default",) + EPOCHLESS if i % 3 else ALL))
         return [([[rng.randrange(100, 1000), v] for v in h], fs) for h, fs in hs]
+
+    @staticmethod
+    def offgrid_column(rng, n):
+        """One metric column of n epochs off the 3-decimal grid: decades 1e-7..1e+6 (mixed inside one history),
+        either sign, zero, inf; values that share the recorded value of an earlier epoch while being lower or
+        higher (ties that exist only after the rounding of the history file), values one or two grid points
+        away from an earlier epoch, mantissas at the ends of a decade (carry into the next one)."""
+        cells, out = [], []
+        for _ in range(n):
+            u = rng.random()
+            if u < 0.05:
+                out.append(None)
+            elif u < 0.09:
+                out.append(0.0)
+            else:
+                if cells and u < 0.75:
+                    sg, m, p = rng.choice(cells)
+                    off = rng.choice(OFFS_IN) if rng.random() < 0.55 else rng.choice((-1, 1)) * rng.choice(OFFS_OUT)
+                else:
+                    sg = -1 if rng.random() < 0.15 else 1
+                    m = rng.choice((10000, 99999, rng.randrange(10000, 100000), rng.randrange(10000, 100000)))
+                    p = rng.choice(MAGS)
+                    off = rng.choice(OFFS_IN)
+                    cells.append((sg, m, p))
+                out.append(pt(sg, m, off, p))
+        return out
+
+    @staticmethod
+    def pattern_history(rng, p, sign=1, deciding_train=False, n=5):
+        """(train, val) pairs at decade p: the deciding column follows PAT_DOWN, the other one PAT_UP."""
+        m1, m2 = rng.randrange(10010, 99990), rng.randrange(10010, 99990)
+        dec = [pt(sign, m1, o, p) for o in (PAT_DOWN if n >= 5 else PAT_DOWN[:2] + PAT_DOWN[3:])[:n]]
+        oth = [pt(sign, m2, o, p) for o in PAT_UP[:n]]
+        return [[d, o] if deciding_train else [o, d] for d, o in zip(dec, oth)]
+
+    def offgrid_bases(self, rng, tier):
+        """Bases whose every crash point is exercised: metrics off the 3-decimal grid, formats with {epoch}
+        (a name formatted from a metric would be formatted from the raw value by the process that wrote it
+        and from the recorded one by every later process: see design note)."""
+        mf, of = FORMATS["default"]
+        out = []
+        pats = [rng.choice(MAGS[8:])] if tier == "quick" else list(MAGS[::3]) + [rng.choice(MAGS)]
+        for i, p in enumerate(pats):
+            bit = i % 2 == 1
+            c = {"keep_lb": True, "model_fmt": mf, "optim_fmt": of, "sched": [],
+                 "vals": self.pattern_history(rng, p, -1 if i % 5 == 4 else 1, bit, 4 if tier == "quick" else 5)}
+            if bit:
+                c["best_is_train"] = True
+            out.append(c)
+        nr = {"quick": 2, "thorough": 5}.get(tier, 30)
+        for i in range(nr):
+            n = 3 if tier == "quick" else rng.randint(2, 6)
+            tcol, vcol = self.offgrid_column(rng, n), self.offgrid_column(rng, n)
+            c = {"keep_lb": i % 2 == 0, "model_fmt": mf, "optim_fmt": of, "sched": [],
+                 "vals": [[t, v] for t, v in zip(tcol, vcol)]}
+            if i % 3 == 1:
+                c["best_is_train"] = True
+            if i % 2 == 1:
+                c["optim"] = "adam"
+                c["model_fmt"], c["optim_fmt"] = FORMATS["short"]
+            out.append(c)
+        return out
+
+    def magnitude_sweep(self, rng, tier):
+        """Every decade 1e-7..1e+6: the pattern history, crash-free (exactness of the directory after every
+        completed update, and the controller started at the end must find the best RECORDED epoch) and with one
+        random crash point (the restarted controller knows the earlier epochs as recorded, its own ones raw)."""
+        mf, of = FORMATS["default"]
+        neg = set(rng.sample(MAGS, 3))
+        for p in MAGS:
+            for sign in ((1, -1) if p in neg or tier != "quick" else (1,)):
+                bit = (p + (sign < 0)) % 2 == 1
+                keeps = (True,) if tier == "quick" and p % 4 else (True, False)
+                for keep in keeps:
+                    c = {"keep_lb": keep, "model_fmt": mf, "optim_fmt": of, "sched": [],
+                         "vals": self.pattern_history(rng, p, sign, bit)}
+                    if bit:
+                        c["best_is_train"] = True
+                    yield c
+                    yield dict(c, sched=[[rng.randint(2, 5), rng.randrange(0, 13), False]])
 
     def base_cases(self, rng, tier):
         hists = self.histories(rng, tier)
@@ -254,7 +393,7 @@ class C16(PropertyCheck):
         hdr = 1 if e == 1 else 0
         if not case["keep_lb"] or cls.collides(case):
             return MAX_OPS - 1 if case["keep_lb"] else 10 + hdr
-        ms = metric_ints(case)
+        ms = rec_metrics(case)
         lb, cb = best_epoch(ms, e - 1), best_epoch(ms, e)
         if cb == e - 1:
             return 10 + hdr
@@ -270,7 +409,7 @@ class C16(PropertyCheck):
             return None
         n = len(case["vals"])
         mn, on = R.names(case, n)
-        ms = metric_ints(case)
+        ms = rec_metrics(case)
         for e in range(1, n + 1):
             cb = best_epoch(ms, e)
             if cb != e and (mn[e] == mn[cb] or on[e] == on[cb]):
@@ -298,7 +437,9 @@ class C16(PropertyCheck):
         return (fm == FORMATS["default"] and n in (1, 3)) or (fm == FORMATS["const"] and n == 2 and not case["keep_lb"])
 
     def cases(self, rng, tier):
-        bases = list(self.base_cases(rng, tier))
+        bases = list(self.base_cases(rng, tier)) + self.offgrid_bases(rng, tier)
+        # 0. metrics of every magnitude, off the grid of the recorded digits: crash-free + one crash
+        yield from self.magnitude_sweep(rng, tier)
         # 1. crash-free runs and every single crash point
         for b in bases:
             yield b
@@ -457,10 +598,15 @@ class C16(PropertyCheck):
             if obs is not None and i < len(obs["sessions"]):
                 rm = [op[1:] for op in obs["sessions"][i]["trace"] if op[0] == "remove"]
             sched.append({"epoch": e, "k": k, "torn": bool(torn), "rm": rm})
+        # metrics go to the model as order-preserving integers (ranks), RAW, together with the rounding of the
+        # history file's format as a table rank(x) -> rank(recorded(x)): the model's controller compares the
+        # values it has cached (recorded ones for the epochs it read from the file, raw ones for its own), rounded
+        rk, tab = rank_table(case)
         return {"op": "c16.run", "case": {
             "quirks": "fixed", "keep_lb": bool(case["keep_lb"]),
             "mkeys": R.keys_of(mn), "okeys": R.keys_of(on),
-            "metrics": [[v[0], v[1]] for v in case["vals"]],
+            "metrics": [[rk.get(R.mval(v[0])), rk.get(R.mval(v[1]))] for v in case["vals"]],
+            "rounding": {"file": tab, "mem": tab},
             "best_is_train": bool(case.get("best_is_train", False)), "red": self.lr_plan(case)[2],
             "sched": sched}}
 
@@ -521,6 +667,9 @@ class C16(PropertyCheck):
             return [f"harness-level exception {impl['error']}: {impl.get('message')}"]
         out = []
         tab = self.lr_plan(case)[1]
+        if not model.get("rounding_consistent", True):
+            out.append("the rounding of the history file's metric format is not idempotent on the metrics of this "
+                       "case (hypothesis `Rounding.Consistent` of the *_rounded theorems)")
         for i, (a, b) in enumerate(zip(impl["sessions"], model["sessions"])):
             self._cmp_session(f"session {i}", a, b, out, tab)
         self._cmp_session("final session", impl["final"], model["final"], out, tab)
@@ -536,7 +685,7 @@ class C16(PropertyCheck):
         # uninterrupted history records for e
         U = [[w, t, lrs[e]] for e, (w, t) in enumerate(R.uninterrupted_states(n))]
         digs = self.reference(case)["digs"]     # digests of the uninterrupted run's state dicts per epoch
-        ms = metric_ints(case)
+        ms = rec_metrics(case)      # `best` is judged on the history AS RECORDED (5 significant digits)
         mn, on = R.names(case, n)
         mk, ok = R.keys_of(mn), R.keys_of(on)
 
@@ -705,15 +854,15 @@ class C16(PropertyCheck):
                 if r["rows"] != list(range(1, k + 1)) or k > n:
                     add(f"{tag}: recorded epochs {r['rows']} are not a prefix of 1..{n}", "C16.history.not_prefix")
                 else:
-                    want_rows = [[case["vals"][j][0] / 1000.0,
-                                  case["vals"][j][1] / 1000.0 if case["vals"][j][1] is not None else float("inf")]
-                                 for j in range(k)]
+                    want_rows = [[R.recorded_value(R.mval(case["vals"][j][0])),
+                                  R.recorded_value(R.mval(case["vals"][j][1]))] for j in range(k)]
                     if r["row_vals"] != want_rows:
-                        add(f"{tag}: recorded metrics {r['row_vals']} differ from the uninterrupted history",
-                            "C16.history.metrics")
+                        add(f"{tag}: recorded metrics {r['row_vals']} differ from the metrics of the run rounded to "
+                            f"the history file's 5 significant digits {want_rows}", "C16.history.metrics")
                     b = best_epoch(ms, k)
                     if r["last"] != k or r["best"] != b:
-                        add(f"{tag}: last/best epoch {r['last']}/{r['best']}, expected {k}/{b}", "C16.recover.which_epoch")
+                        add(f"{tag}: last/best epoch {r['last']}/{r['best']}, expected {k}/{b} (first minimum of the "
+                            f"recorded values {ms[:k]})", "C16.recover.which_epoch")
                     checks = [("last", k, r["load_last"])]
                     if injective or keep:
                         checks.append(("best", b, r["load_best"]))
@@ -754,6 +903,111 @@ class C16(PropertyCheck):
                     wsig("final", len(all_sessions) - 1) or "C16.resume.state")
         return fails
 
+    # ------------------------------------------------------------------ names formatted from a metric
+    def extra_checks(self, rng, tier, report):
+        """File names formatted from a metric, metrics off the grid of the recorded digits: the Lean model
+        takes a file name for a function of the epoch (`Params.km/ko`), which needs the name a LATER controller
+        computes for a recorded epoch (from the recorded value) to be the name the writing process used (from
+        the raw float). Probe, on the real controller alone: one process records epoch 1, a new controller
+        must load it. Fails on /repo exactly when the two formatted names differ: an OBSERVATION outside the quantifier (off-grid metric), counted only; formerly NAME_RAW,
+        assigned only to that symptom (FileNotFoundError, the checkpoint is there under the raw value's name,
+        nothing under the recorded value's name); anything else is a violation."""
+        from common.framework import Failure
+        import os
+        probes = []
+        for _ in range(6 if tier == "quick" else 60):
+            off = rng.choice(OFFS_IN + OFFS_OUT) * rng.choice((-1, 1))
+            probes.append((FMT_METRIC8, pt(rng.choice((1, 1, -1)), rng.randrange(10010, 99990), off, rng.choice(MAGS))))
+        for _ in range(4 if tier == "quick" else 40):
+            k = rng.randrange(100, 999)      # 0.kkk5 -/+ 4e-8: '{:.3f}' of the raw and of the recorded value may differ
+            probes.append((FORMATS["metric"], float(f"0.{k}{rng.choice(('49996', '50004', '5', '3', ''))}")))
+        stats = {"probes": 0, "names_differ": 0, "load_failed": 0}
+        for (mf, of), x in probes:
+            case = {"keep_lb": bool(rng.getrandbits(1)), "model_fmt": mf, "optim_fmt": of,
+                    "vals": [[0.5, x]], "sched": []}
+            info_raw = {"epoch": 1, "train_met": 0.5, "val_met": x}
+            info_rec = {"epoch": 1, "train_met": 0.5, "val_met": R.recorded_value(x)}
+            raw_names = (mf.format(**info_raw), of.format(**info_raw))
+            rec_names = (mf.format(**info_rec), of.format(**info_rec))
+            with R.Workspace() as ws:
+                st = R.session(case, ws, None)
+                rec = R.recover(case, ws, None)
+                on_disk = sorted(os.listdir(ws.state_dir)) if os.path.isdir(ws.state_dir) else []
+            stats["probes"] += 1
+            stats["names_differ"] += raw_names != rec_names
+            want = [1, 1, R.lr0_of(case)]
+            got = rec.get("load_last", rec.get("init_error"))
+            if st.get("end_epoch") != 1 or st.get("crashed") or "update_error" in st:
+                report["failures"].append(Failure(case, f"metric-named format: the single update did not complete: {st}",
+                                                  "C16.update.raised"))
+                continue
+            if got == want and rec.get("last") == 1:
+                continue
+            stats["load_failed"] += 1
+            specific = (raw_names != rec_names and got == ["error", "FileNotFoundError"]
+                        and all(nm in on_disk for nm in raw_names) and not any(nm in on_disk for nm in rec_names))
+            if specific:
+                # the metric is OFF the grid of the recorded digits: outside the property's quantifier ("metric
+                # sequences on a grid exactly representable in the history file's printed precision"); counted
+                # in the evidence as an observation, not a failure of C16 (DESIGN 11.3b)
+                stats["off_grid_name_mismatch"] = stats.get("off_grid_name_mismatch", 0) + 1
+                continue
+            report["failures"].append(Failure(
+                case, f"format {mf!r}, validation metric {x!r} (recorded as {R.recorded_value(x)!r}): the process that "
+                f"ran the update saved epoch 1 as {raw_names[0]!r}; a controller started afterwards looks for "
+                f"{rec_names[0]!r}: loading the last recorded epoch gives {got}, directory = {on_disk}",
+                "C16.recover.load_last"))
+        report["extra"]["c16_metric_named_probes"] = stats
+        self.decision_probes(rng, tier, report)
+
+    def decision_probes(self, rng, tier, report):
+        """Early stopping / reduce-lr with a threshold, metrics off the recorded grid: the running controller
+        compares the RAW metric of an earlier epoch with the new one, a controller restarted in between the
+        RECORDED one. Probe: [a, b, b] with a - b within the recorded precision of the threshold, uninterrupted
+        vs. a plain restart before epoch 2 (new controller, load, go on): the history files must be equal.
+        Observation outside the quantifier (counted only; formerly DECIDE_RAW) only when raw and recorded difference lie on different sides of the threshold
+        and the metric columns of the two files agree; any other difference is a violation."""
+        from common.framework import Failure
+        mf, of = FORMATS["default"]
+        stats = {"probes": 0, "sides_differ": 0, "history_differs": 0}
+        for i in range(6 if tier == "quick" else 60):
+            scale = 10.0 ** rng.choice((-3, 0, 0, 2))
+            thr = 0.05 * scale
+            g = rng.randrange(200, 900) / 1000.0
+            da, db = rng.choice((-4e-7, 4e-7, -3e-7, 0.0)), rng.choice((0.0, 0.0, 2e-7, -2e-7))
+            a, b = (g + 0.05 + da) * scale, (g + db) * scale
+            extra = ({"early_stopping_threshold": thr, "early_stopping_patience": 2} if i % 2 == 0 else
+                     {"reduce_lr_threshold": thr, "reduce_lr_patience": 1, "reduce_lr_factor": 0.5})
+            case = {"keep_lb": bool(i % 3), "model_fmt": mf, "optim_fmt": of, "extra_params": extra,
+                    "vals": [[0.5, a], [0.5, b], [0.5, b]], "sched": [[2, 0, False]]}
+            ref = self.reference(case)
+            with R.Workspace() as ws:
+                R.session(case, ws, (2, 0, False), ref=ref)
+                fin = R.session(case, ws, None, ref=ref)
+                csv = R.read_csv(ws)
+            stats["probes"] += 1
+            raw_side = max(a - b, 0) < thr
+            rec_side = max(R.recorded_value(a) - b, 0) < thr
+            stats["sides_differ"] += raw_side != rec_side
+            if csv == ref["csv"] and fin.get("end_epoch") == ref["status"].get("end_epoch"):
+                continue
+            stats["history_differs"] += 1
+
+            def cols(text, idx):
+                return [ln.split(",")[idx] for ln in (text or "").splitlines()]
+            same_metrics = cols(csv, 6) == cols(ref["csv"], 6) and cols(csv, 7) == cols(ref["csv"], 7)
+            if raw_side != rec_side and same_metrics:
+                # off-grid metric within the recorded precision of the threshold: outside the quantifier (see above)
+                stats["off_grid_decision_differs"] = stats.get("off_grid_decision_differs", 0) + 1
+                continue
+            report["failures"].append(Failure(
+                case, f"threshold {thr!r} ({'early stopping' if i % 2 == 0 else 'reduce lr'}), validation metrics "
+                f"{[a, b, b]!r}: epoch 1 is recorded as {R.recorded_value(a)!r}; a - b < threshold is {raw_side} on the "
+                f"raw values and {rec_side} for a controller restarted after epoch 1: the continued run's history "
+                f"{(csv or '').splitlines()[1:]} differs from the uninterrupted run's {(ref['csv'] or '').splitlines()[1:]}",
+                "C16.resume.history"))
+        report["extra"]["c16_decision_probes"] = stats
+
     # ------------------------------------------------------------------ evidence
     def nontrivial(self, case, impl):
         if "error" in impl:
@@ -772,6 +1026,29 @@ class C16(PropertyCheck):
             if case.get(k):
                 t.append(k)
         t.append("optim=" + case.get("optim", "sgd"))
+        if off_grid(case):
+            t.append("metrics=off_grid")
+            raw, rec = raw_metrics(case), rec_metrics(case)
+            for x in raw:
+                if x == float("inf"):
+                    t.append("metric=inf")
+                elif x == 0:
+                    t.append("metric=0")
+                else:
+                    t.append("metric_decade=1e%+03d" % int(("%e" % abs(x)).split("e")[1]))
+                    if x < 0:
+                        t.append("metric<0")
+            for e in range(2, len(raw) + 1):
+                rb, cb = best_epoch(raw, e), best_epoch(rec, e)
+                if rb != cb:
+                    t.append("lowest_raw_metric_is_not_the_best_recorded_epoch")
+                if cb and cb != e and rec[e - 1] == rec[cb - 1]:
+                    t.append("recorded_tie_with_best:" + ("raw_lower" if raw[e - 1] < raw[cb - 1] else
+                                                          "raw_higher" if raw[e - 1] > raw[cb - 1] else "raw_equal"))
+                if cb == e and any(0 < raw[j] - raw[e - 1] < 0.2 * (rec[j] - rec[e - 1]) for j in range(e - 1)):
+                    t.append("new_best_separated_from_a_raw_near_tie_by_the_rounding")
+        else:
+            t.append("metrics=3_decimal_grid")
         if case.get("extra_params"):
             t.append("early_stop+reduce_lr" if "early_stopping_threshold" in case["extra_params"] else "reduce_lr_only")
             t.append("lr_from=" + ("params" if case["extra_params"].get("log10_learning_rate") is not None
